@@ -268,12 +268,12 @@ impl<'m> Driver<'m> {
                 None => (self.input.len(), vec![]),
             };
             let res = match r {
-                Ok(Ok(v)) => {
-                    if let Some(v) = &v {
-                        check_utf8_value(v, mon, self.what);
+                Ok(Ok(v)) => match &v {
+                    Some(val) if !check_utf8_value(val, mon, self.what) => {
+                        Err(PErr { cat: Cat::Syntax, msg: "<value with an ill-formed str, dropped>".into(), loc: None, io_id: None })
                     }
-                    Ok(v)
-                }
+                    _ => Ok(v),
+                },
                 Ok(Err(e)) => Err(digest_error(e, &Seen { input: self.input, len: seen, idx: Some(&lines) }, &fired, mon, self.what)),
                 Err(ab) => {
                     report_abnormal(mon, &ab, self.what);
@@ -353,7 +353,10 @@ pub fn exec(opts_ix: u32, source: &Source, input: &[u8], ops: &[Op], then_drain:
 // oracles
 
 fn standalone(v: &V, popts: u32, opts_ix: u32) -> Option<Value> {
-    let text = lexpr::to_string_custom(&v.to_value(), opts::print_options(popts)).ok()?;
+    // to_vec, not to_string: the harness must not run into the hooked unchecked
+    // conversion itself; an ill-formed print is C17's to report, not ours to trip on
+    let bytes = lexpr::to_vec_custom(&v.to_value(), opts::print_options(popts)).ok()?;
+    let text = String::from_utf8(bytes).ok()?;
     match guarded(|| lexpr::from_str_custom(&text, opts::parse_options(opts_ix))) {
         Ok(Ok(v)) => Some(v),
         _ => None,
